@@ -3,7 +3,9 @@ package tree
 import (
 	"context"
 	"fmt"
+	"strconv"
 
+	"github.com/sdcio/data-server/pkg/utils"
 	sdcpb "github.com/sdcio/sdc-protos/sdcpb"
 	"github.com/sdcio/yang-parser/xpath"
 	"github.com/sdcio/yang-parser/xpath/xutils"
@@ -31,6 +33,15 @@ func (y *yangParserEntryAdapter) valueToDatum(tv *sdcpb.TypedValue) xpath.Datum 
 		return xpath.NewBoolDatum(tv.GetBoolVal())
 	case *sdcpb.TypedValue_UintVal:
 		return xpath.NewNumDatum(float64(tv.GetUintVal()))
+	case *sdcpb.TypedValue_IntVal:
+		return xpath.NewNumDatum(float64(tv.GetIntVal()))
+	case *sdcpb.TypedValue_DoubleVal:
+		return xpath.NewNumDatum(tv.GetDoubleVal())
+	case *sdcpb.TypedValue_DecimalVal:
+		if f, err := strconv.ParseFloat(utils.TypedValueToString(tv), 64); err == nil {
+			return xpath.NewNumDatum(f)
+		}
+		return xpath.NewLiteralDatum(utils.TypedValueToString(tv))
 	case *sdcpb.TypedValue_LeaflistVal:
 		datums := make([]xpath.Datum, 0, len(ttv.LeaflistVal.GetElement()))
 		for _, e := range ttv.LeaflistVal.GetElement() {
